@@ -49,6 +49,13 @@ def uDisp (u : USt) : USt := { u with stopped := true, sad := true, cur := u.sad
 def srcIf {α} (b : Bool) : List (Eff α) := if b then [.srcDispose] else []
 def uSubDisp (u : USt) : USt := if u.subDisposed then u else uDisp { u with subDisposed := true }
 
+@[simp] theorem uDisp_sad (u : USt) : (uDisp u).sad = true := rfl
+@[simp] theorem uSubDisp_sad (u : USt) : (uSubDisp u).sad = (!u.subDisposed || u.sad) := by
+  cases h : u.subDisposed <;> simp [uSubDisp, h]
+@[simp] theorem uDisp_subDisposed (u : USt) : (uDisp u).subDisposed = u.subDisposed := rfl
+@[simp] theorem uSubDisp_subDisposed (u : USt) : (uSubDisp u).subDisposed = true := by
+  cases h : u.subDisposed <;> simp [uSubDisp, h]
+
 @[simp] theorem resCount_srcIf {α} (b : Bool) : resCount (srcIf b : List (Eff α)) = 0 := by
   cases b <;> simp [srcIf, Eff.isResDispose]
 @[simp] theorem hasTerm_srcIf {α} (b : Bool) : hasTerm (srcIf b : List (Eff α)) = false := by
@@ -115,6 +122,8 @@ structure UsingInv {α} (c : Cfg) (s : St α) (b : Bool) : Prop where
   hdl : s.d.handle = true
   ret : s.d.retDisposed = b
   lv : s.u.live = true ∨ s.d.sad = true
+  sad2 : s.d.sad = true → s.u.sad = true              -- `R` disposed ⇒ `U` disposed
+  nsub : s.d.sad = false → s.u.subDisposed = false
 
 theorem resCount_resIf {α} (c : Cfg) [NoSrcFault c] : resCount (resIf c : List (Eff α)) = (c.hasRes).toNat := by
   simp only [resIf]; split <;> simp_all [Eff.isResDispose]
@@ -123,30 +132,32 @@ theorem resCount_resIf {α} (c : Cfg) [NoSrcFault c] : resCount (resIf c : List 
 
 theorem using_dispose_inv {α} (c : Cfg) [NoSrcFault c] (hc : c.oper = .using) (s : St α) (b : Bool)
     (h : UsingInv c s b) : UsingInv c (step c s .dispose) true := by
-  obtain ⟨cnt, sad, cur, dst, ust, trg, hdl, ret, lv⟩ := h
+  obtain ⟨cnt, sad, cur, dst, ust, trg, hdl, ret, lv, sad2, nsub⟩ := h
   cases hrd : s.d.retDisposed
   · cases hsad : s.d.sad <;>
     (rw [hsad] at cur dst sad
      simp [step, swallow, handleDispose, dDispose, rDispose_using c hc, hdl, hrd, hsad, cur, ← sad]
      constructor <;> simp_all [resCount_resIf])
-  · simp [step, swallow, handleDispose, hrd]; exact ⟨cnt, sad, cur, dst, ust, trg, hdl, hrd, lv⟩
+  · simp [step, swallow, handleDispose, hrd]; exact ⟨cnt, sad, cur, dst, ust, trg, hdl, hrd, lv, sad2, nsub⟩
 
 theorem using_src_inv {α} (c : Cfg) [NoSrcFault c] (hc : c.oper = .using) (s : St α) (n : Notif α) (b : Bool)
     (h : UsingInv c s b) : UsingInv c (step c s (.src n)) b := by
-  obtain ⟨cnt, sad, cur, dst, ust, trg, hdl, ret, lv⟩ := h
+  obtain ⟨cnt, sad, cur, dst, ust, trg, hdl, ret, lv, sad2, nsub⟩ := h
   cases hl : s.u.live
-  · simp [step, hl]; exact ⟨cnt, sad, cur, dst, ust, trg, hdl, ret, lv⟩
+  · simp [step, hl]; exact ⟨cnt, sad, cur, dst, ust, trg, hdl, ret, lv, sad2, nsub⟩
   cases hus : s.u.stopped
   · cases hds : s.d.stopped <;> cases hr : c.subRaises s.d.cbs <;> cases n <;>
     (have hsad := dst.symm; rw [hds] at hsad; rw [hsad] at cur sad
      simp [step, swallow, uNotify, hNext, hTerminal, hError, hCompleted, dNext, dTerminal, userCb, tryFinally, hc,
       dDispose, rDispose_using c hc, uDispose_eq, hus, hds, hr, hsad, cur, hl, ← sad]
      constructor <;> simp_all [Notif.isTerminal, Eff.isResDispose, uDisp, resCount_resIf])
-  · simp [step, swallow, uNotify, hus, hl]; exact ⟨cnt, sad, cur, dst, ust, trg, hdl, ret, lv⟩
+  · simp [step, swallow, uNotify, hus, hl]; exact ⟨cnt, sad, cur, dst, ust, trg, hdl, ret, lv, sad2, nsub⟩
 
 /-- operators that hand `D`'s own methods to the source (`source.subscribe(observer)` or
 `observer.on_next, observer.on_error, observer.on_completed`) -/
-def Direct (c : Cfg) : Prop := c.oper = .using ∨ c.oper = .finallyAction ∨ c.oper = .doOnDispose
+def Direct (c : Cfg) : Prop :=
+  c.oper = .using ∨ c.oper = .finallyAction ∨ c.oper = .doOnDispose ∨
+  (c.oper = .doAction ∧ c.hasNext = false ∧ c.hasError = false ∧ c.hasCompleted = false)   -- `Cfg.ident`
 
 /-- invariant of the `Direct` operators while the source's `subscribe` body runs (`R` does not exist yet) -/
 structure UsingSync {α} (s : St α) : Prop where
@@ -161,22 +172,23 @@ structure UsingSync {α} (s : St α) : Prop where
   live : s.u.live = false
   ucur : s.u.cur = false                              -- the source's subscription has not been handed to `U` yet
   usd : s.u.sad = true → s.u.stopped = true
+  nsub : s.u.subDisposed = false                      -- `Disposable(U.dispose)` does not exist / is untouched
 
 theorem using_sync_notify {α} (c : Cfg) (hd : Direct c) (s : St α) (n : Notif α)
     (h : UsingSync s) : UsingSync (uNotify c n s).1 := by
-  obtain ⟨cur, rd, cnt, dst, trg, ust, ret, hdl, live, ucur, usd⟩ := h
+  obtain ⟨cur, rd, cnt, dst, trg, ust, ret, hdl, live, ucur, usd, nsub⟩ := h
   cases hus : s.u.stopped
-  · rcases hd with hc | hc | hc <;>
+  · rcases hd with hc | hc | hc | ⟨hc, hn1, hn2, hn3⟩ <;>
     cases hds : s.d.stopped <;> cases hr : c.subRaises s.d.cbs <;> cases n <;>
     (have hsad := dst.symm; rw [hds] at hsad
-     simp [uNotify, hNext, hTerminal, hError, hCompleted, dNext, dTerminal, userCb, tryFinally, hc,
+     simp [uNotify, hNext, hTerminal, hError, hCompleted, dNext, dTerminal, userCb, tryFinally, hc, *,
       dDispose, uDispose_gen, hus, hds, hr, hsad, cur, ucur]
      constructor <;> simp_all [uDisp])
-  · simp [uNotify, hus]; exact ⟨cur, rd, cnt, dst, trg, ust, ret, hdl, live, ucur, usd⟩
+  · simp [uNotify, hus]; exact ⟨cur, rd, cnt, dst, trg, ust, ret, hdl, live, ucur, usd, nsub⟩
 
 theorem usingSync_escape {α} (s : St α) (e : Err) (h : UsingSync s) :
     UsingSync { s with log := s.log ++ [.escape e] } := by
-  obtain ⟨cur, rd, cnt, dst, trg, ust, ret, hdl, live, ucur, usd⟩ := h
+  obtain ⟨cur, rd, cnt, dst, trg, ust, ret, hdl, live, ucur, usd, nsub⟩ := h
   constructor <;> simp_all [Eff.isResDispose]
 
 theorem using_sync_emit {α} (c : Cfg) (hc : Direct c) (prop : Bool) (ns : List (Notif α)) (s : St α)
@@ -197,11 +209,11 @@ theorem using_sync_emit {α} (c : Cfg) (hc : Direct c) (prop : Bool) (ns : List 
 theorem using_sync_hError {α} (c : Cfg) (hd : Direct c) (s : St α) (e : Err)
     (h : UsingSync s) : UsingSync (hError c e { s with u.stopped := true }).1 ∧
       (hError c e { s with u.stopped := true }).1.d.stopped = true := by
-  obtain ⟨cur, rd, cnt, dst, trg, ust, ret, hdl, live, ucur, usd⟩ := h
-  rcases hd with hc | hc | hc <;>
+  obtain ⟨cur, rd, cnt, dst, trg, ust, ret, hdl, live, ucur, usd, nsub⟩ := h
+  rcases hd with hc | hc | hc | ⟨hc, hn1, hn2, hn3⟩ <;>
   cases hds : s.d.stopped <;> cases hr : c.subRaises s.d.cbs <;>
     (have hsad := dst.symm; rw [hds] at hsad
-     simp [hError, dTerminal, userCb, tryFinally, hc, dDispose, hds, hr, hsad, cur]
+     simp [hError, dTerminal, userCb, tryFinally, hc, *, dDispose, hds, hr, hsad, cur]
      try constructor <;> simp_all)
 
 /-- what `using`'s own `subscribe` leaves: no `R` yet, and if it raised then `D` is already stopped -/
@@ -216,6 +228,9 @@ structure UsingSub {α} (r : St α × Option Err) : Prop where
   hdl : r.1.d.handle = false
   exn : ∀ e, r.2 = some e → r.1.d.stopped = true ∧ (r.1.u.live = false ∨ r.1.u.stopped = true)
   nrm : r.2 = none → r.1.u.live = true ∨ r.1.d.stopped = true
+  nsub : r.1.u.subDisposed = false
+  usd : r.1.u.sad = true → r.1.u.stopped = true
+  exl : ∀ e, r.2 = some e → r.1.u.live = false ∨ r.1.u.sad = true
 
 theorem using_srcSubscribe {α} (c : Cfg) (hc : Direct c) (sp : SyncPhase α) (s : St α)
     (h : UsingSync s) : UsingSub (srcSubscribe c sp s) := by
@@ -226,17 +241,17 @@ theorem using_srcSubscribe {α} (c : Cfg) (hc : Direct c) (sp : SyncPhase α) (s
     intro e s1 h1
     split
     · rename_i hst
-      obtain ⟨cur, rd, cnt, dst, trg, ust, ret, hdl, live, ucur, usd⟩ := h1
-      exact ⟨cur, rd, cnt, dst, trg, ust, ret, hdl, fun _ _ => ⟨ust hst, Or.inl live⟩, fun _ => Or.inr (ust hst)⟩
-    · obtain ⟨⟨cur, rd, cnt, dst, trg, ust, ret, hdl, live, ucur, usd⟩, hst⟩ := using_sync_hError c hc s1 e h1
-      exact ⟨cur, rd, cnt, dst, trg, ust, ret, hdl, fun _ _ => ⟨hst, Or.inl live⟩, fun _ => Or.inr hst⟩
+      obtain ⟨cur, rd, cnt, dst, trg, ust, ret, hdl, live, ucur, usd, nsub⟩ := h1
+      exact ⟨cur, rd, cnt, dst, trg, ust, ret, hdl, fun _ _ => ⟨ust hst, Or.inl live⟩, fun _ => Or.inr (ust hst), nsub, usd, fun _ _ => Or.inl live⟩
+    · obtain ⟨⟨cur, rd, cnt, dst, trg, ust, ret, hdl, live, ucur, usd, nsub⟩, hst⟩ := using_sync_hError c hc s1 e h1
+      exact ⟨cur, rd, cnt, dst, trg, ust, ret, hdl, fun _ _ => ⟨hst, Or.inl live⟩, fun _ => Or.inr hst, nsub, usd, fun _ _ => Or.inl live⟩
   rcases he : emitSync c sp.propagate sp.emits s with ⟨s1, _ | e⟩
   · rw [he] at h1
     simp only
     cases hx : sp.exn with
     | some e => simpa using body e s1 h1
     | none =>
-      obtain ⟨cur, rd, cnt, dst, trg, ust, ret, hdl, live, ucur, usd⟩ := h1
+      obtain ⟨cur, rd, cnt, dst, trg, ust, ret, hdl, live, ucur, usd, nsub⟩ := h1
       simp only
       cases hf : c.srcDisposeRaises <;> split <;> constructor <;> simp_all [srcDisposeP, Eff.isResDispose]
   · rw [he] at h1; simpa using body e s1 h1
@@ -246,7 +261,7 @@ theorem usingSync_act {α} (s : St α) (k : ActK) (r : Bool) (h : UsingSync s)
     UsingSync { s with log := s.log ++ [.act k none r] } := by
   rcases hk with rfl | rfl
   all_goals
-  obtain ⟨cur, rd, cnt, dst, trg, ust, ret, hdl, live, ucur, usd⟩ := h
+  obtain ⟨cur, rd, cnt, dst, trg, ust, ret, hdl, live, ucur, usd, nsub⟩ := h
   constructor <;> simp_all [Eff.isResDispose]
 
 theorem usingSync_init {α} : UsingSync ({} : St α) := by constructor <;> simp
@@ -286,7 +301,7 @@ theorem using_subscribePhase {α} (c : Cfg) [NoSrcFault c] (hc : c.oper = .using
   simp only [subscribePhase, outerSubscribe]
   rcases ho : opSubscribe c sp ({} : St α) with ⟨s1, _ | e⟩
   · rw [ho] at h
-    obtain ⟨cur, rd, cnt, dst, trg, ust, ret, hdl, exn, nrm⟩ := h
+    obtain ⟨cur, rd, cnt, dst, trg, ust, ret, hdl, exn, nrm, nsub, usd, exl⟩ := h
     simp only at cur rd cnt dst trg ust ret hdl
     left
     cases hsad : s1.d.sad
@@ -295,7 +310,7 @@ theorem using_subscribePhase {α} (c : Cfg) [NoSrcFault c] (hc : c.oper = .using
     · simp only [hsad, rDispose_using c hc, rd]
       constructor <;> simp_all [resCount_resIf]
   · rw [ho] at h
-    obtain ⟨cur, rd, cnt, dst, trg, ust, ret, hdl, exn, nrm⟩ := h
+    obtain ⟨cur, rd, cnt, dst, trg, ust, ret, hdl, exn, nrm, nsub, usd, exl⟩ := h
     obtain ⟨hst, hlive⟩ := exn e rfl
     simp only at cur rd cnt dst trg ust ret hdl hst hlive
     right
@@ -321,7 +336,7 @@ theorem using_step_sad {α} (c : Cfg) [NoSrcFault c] (hc : c.oper = .using) (s :
     (h : UsingInv c s b)
     (ht : s.d.sad = true ∨ (match e with | .src n => n.isTerminal | .dispose => true) = true) :
     (step c s e).d.sad = true := by
-  obtain ⟨cnt, sad, cur, dst, ust, trg, hdl, ret, lv⟩ := h
+  obtain ⟨cnt, sad, cur, dst, ust, trg, hdl, ret, lv, sad2, nsub⟩ := h
   cases hsad : s.d.sad
   · rw [hsad] at cur dst sad
     simp only [hsad, Bool.false_eq_true, false_or] at ht lv
@@ -496,21 +511,23 @@ structure FinInv {α} (s : St α) (b : Bool) : Prop where
   ret : s.d.retDisposed = (b && s.d.handle)
   nh : s.d.handle = false → s.d.sad = true
   ord : noEmitAfterAct .fin s.log = true
+  sad2 : s.d.sad = true → s.u.sad = true              -- `R` disposed ⇒ `U` disposed (also when the inner dispose raises)
+  nsub : s.d.sad = false → s.u.subDisposed = false
 
 theorem finInv_esc {α} (x : Option Err) (s : St α) (b : Bool) (h : FinInv s b) : FinInv (esc x s) b := by
   cases x with
   | none => exact h
   | some e =>
-    obtain ⟨cnt, sad, cur, dst, ust, trg, ret, nh, ord⟩ := h
+    obtain ⟨cnt, sad, cur, dst, ust, trg, ret, nh, ord, sad2, nsub⟩ := h
     simp only [esc]
     constructor <;> simp_all [noEmitAfterAct_append, noEmitAfterAct]
 
 theorem fin_dispose_inv {α} (c : Cfg) (hc : c.oper = .finallyAction) (s : St α) (b : Bool)
     (h : FinInv s b) : FinInv (step c s .dispose) true := by
-  obtain ⟨cnt, sad, cur, dst, ust, trg, ret, nh, ord⟩ := h
+  obtain ⟨cnt, sad, cur, dst, ust, trg, ret, nh, ord, sad2, nsub⟩ := h
   cases hh : s.d.handle
   · simp [step, swallow, handleDispose, hh]
-    exact ⟨cnt, sad, cur, dst, ust, trg, by simp_all, nh, ord⟩
+    exact ⟨cnt, sad, cur, dst, ust, trg, by simp_all, nh, ord, sad2, nsub⟩
   cases hrd : s.d.retDisposed
   · simp only [step, swallow_eq]
     apply finInv_esc
@@ -520,13 +537,13 @@ theorem fin_dispose_inv {α} (c : Cfg) (hc : c.oper = .finallyAction) (s : St α
      simp [handleDispose, dDispose_fst, rDispose_fin_fst c hc, hh, hrd, hsad, cur, ← sad]
      constructor <;> simp_all [noEmitAfterAct_append, noEmitAfterAct])
   · simp [step, swallow, handleDispose, hrd, hh]
-    exact ⟨cnt, sad, cur, dst, ust, trg, by simp_all, nh, ord⟩
+    exact ⟨cnt, sad, cur, dst, ust, trg, by simp_all, nh, ord, sad2, nsub⟩
 
 theorem fin_src_inv {α} (c : Cfg) (hc : c.oper = .finallyAction) (s : St α) (n : Notif α) (b : Bool)
     (h : FinInv s b) : FinInv (step c s (.src n)) b := by
-  obtain ⟨cnt, sad, cur, dst, ust, trg, ret, nh, ord⟩ := h
+  obtain ⟨cnt, sad, cur, dst, ust, trg, ret, nh, ord, sad2, nsub⟩ := h
   cases hl : s.u.live
-  · simp [step, hl]; exact ⟨cnt, sad, cur, dst, ust, trg, ret, nh, ord⟩
+  · simp [step, hl]; exact ⟨cnt, sad, cur, dst, ust, trg, ret, nh, ord, sad2, nsub⟩
   cases hus : s.u.stopped
   · simp only [step, hl, if_true, swallow_eq]
     apply finInv_esc
@@ -536,7 +553,7 @@ theorem fin_src_inv {α} (c : Cfg) (hc : c.oper = .finallyAction) (s : St α) (n
      simp [uNotify, hNext, hTerminal, hError, hCompleted, dNext_fst, dTerminal_fst, userCb_fst, tryFinally_fst, hc,
       dDispose_fst, rDispose_fin_fst c hc, uDispose_fst, hus, hds, hsad, cur, ← sad]
      constructor <;> simp_all [uDisp, noEmitAfterAct_append, noEmitAfterAct])
-  · simp [step, swallow, uNotify, hus, hl]; exact ⟨cnt, sad, cur, dst, ust, trg, ret, nh, ord⟩
+  · simp [step, swallow, uNotify, hus, hl]; exact ⟨cnt, sad, cur, dst, ust, trg, ret, nh, ord, sad2, nsub⟩
 
 theorem fin_run_inv {α} (c : Cfg) (hc : c.oper = .finallyAction) (evs : List (Ev α)) (s : St α) (b : Bool)
     (h : FinInv s b) : FinInv (runFrom c s evs) (b || hasDispose evs) := by
@@ -558,6 +575,7 @@ structure FinFrozen {α} (s : St α) : Prop where
   cnt : actCount .fin s.log = 1
   trm : hasTerm s.log = true
   ord : noEmitAfterAct .fin s.log = true
+  rel : s.u.live = false ∨ s.u.sad = true
 
 theorem fin_subscribePhase {α} (c : Cfg) (hc : c.oper = .finallyAction) (sp : SyncPhase α) :
     FinInv (subscribePhase c sp : St α) false ∨ FinFrozen (subscribePhase c sp : St α) := by
@@ -565,7 +583,7 @@ theorem fin_subscribePhase {α} (c : Cfg) (hc : c.oper = .finallyAction) (sp : S
   simp only [subscribePhase, outerSubscribe, opSubscribe, hc]
   rcases ho : srcSubscribe c sp ({} : St α) with ⟨s1, _ | e⟩
   · rw [ho] at h
-    obtain ⟨cur, rd, ⟨-, cnt, -⟩, dst, trg, ust, ret, hdl, exn, nrm⟩ := h
+    obtain ⟨cur, rd, ⟨-, cnt, -⟩, dst, trg, ust, ret, hdl, exn, nrm, nsub, usd, exl⟩ := h
     simp only at cur rd cnt dst trg ust ret hdl nrm
     have ha := any_isAct_of_count_zero .fin s1.log cnt
     have hb := noEmitAfterAct_of_count_zero .fin s1.log cnt
@@ -578,15 +596,16 @@ theorem fin_subscribePhase {α} (c : Cfg) (hc : c.oper = .finallyAction) (sp : S
       rcases hr : rDispose c s1 with ⟨s2, _ | e2⟩ <;> rw [hr] at hfst <;> simp only [rd, Bool.false_eq_true, if_false] at hfst <;>
         subst hfst <;> constructor <;> simp_all [noEmitAfterAct_append, noEmitAfterAct]
   · rw [ho] at h
-    obtain ⟨cur, rd, ⟨-, cnt, -⟩, dst, trg, ust, ret, hdl, exn, nrm⟩ := h
+    obtain ⟨cur, rd, ⟨-, cnt, -⟩, dst, trg, ust, ret, hdl, exn, nrm, nsub, usd, exl⟩ := h
     obtain ⟨hst, hlive⟩ := exn e rfl
-    simp only at cur rd cnt dst trg ust ret hdl hst hlive
+    have hrel := exl e rfl
+    simp only at cur rd cnt dst trg ust ret hdl hst hlive hrel
     have ha := any_isAct_of_count_zero .fin s1.log cnt
     have hb := noEmitAfterAct_of_count_zero .fin s1.log cnt
     right
     cases hra : c.actRaises s1.o.acts <;>
     (simp only [action, hra]
-     refine ⟨⟨by simp_all, by simp_all⟩, by simp_all, by simp_all, ?_⟩
+     refine ⟨⟨by simp_all, by simp_all⟩, by simp_all, by simp_all, ?_, by simp_all⟩
      simp_all [noEmitAfterAct_append, noEmitAfterAct])
 
 /-! ## do_finally (fixed handler: flag set before the action; the action may raise) -/
@@ -1648,10 +1667,12 @@ structure DodInv {α} (s : St α) (b : Bool) : Prop where
   hdl : s.d.handle = true
   ret : s.d.retDisposed = b
   ord : noEmitAfterAct .dispose s.log = true
+  sad2 : s.d.sad = true → s.u.sad = true
+  nsub : s.d.sad = false → s.u.subDisposed = false
 
 theorem dod_dispose_inv {α} (c : Cfg) [NoSrcFault c] (hc : c.oper = .doOnDispose) (hnr : ∀ k, c.actRaises k = false)
     (s : St α) (b : Bool) (h : DodInv s b) : DodInv (step c s .dispose) true := by
-  obtain ⟨cnt, sad, cur, dst, ust, trg, hdl, ret, ord⟩ := h
+  obtain ⟨cnt, sad, cur, dst, ust, trg, hdl, ret, ord, sad2, nsub⟩ := h
   cases hrd : s.d.retDisposed
   · cases hsad : s.d.sad <;>
     (rw [hsad] at cur dst sad
@@ -1659,13 +1680,13 @@ theorem dod_dispose_inv {α} (c : Cfg) [NoSrcFault c] (hc : c.oper = .doOnDispos
      simp [step, swallow, handleDispose, dDispose, rDispose_ondispose c hc hnr, hdl, hrd, hsad, cur, ← sad]
      constructor <;> simp_all [noEmitAfterAct_append, noEmitAfterAct])
   · simp [step, swallow, handleDispose, hrd]
-    exact ⟨cnt, sad, cur, dst, ust, trg, hdl, hrd, ord⟩
+    exact ⟨cnt, sad, cur, dst, ust, trg, hdl, hrd, ord, sad2, nsub⟩
 
 theorem dod_src_inv {α} (c : Cfg) [NoSrcFault c] (hc : c.oper = .doOnDispose) (hnr : ∀ k, c.actRaises k = false)
     (s : St α) (n : Notif α) (b : Bool) (h : DodInv s b) : DodInv (step c s (.src n)) b := by
-  obtain ⟨cnt, sad, cur, dst, ust, trg, hdl, ret, ord⟩ := h
+  obtain ⟨cnt, sad, cur, dst, ust, trg, hdl, ret, ord, sad2, nsub⟩ := h
   cases hl : s.u.live
-  · simp [step, hl]; exact ⟨cnt, sad, cur, dst, ust, trg, hdl, ret, ord⟩
+  · simp [step, hl]; exact ⟨cnt, sad, cur, dst, ust, trg, hdl, ret, ord, sad2, nsub⟩
   cases hus : s.u.stopped
   · cases hds : s.d.stopped <;> cases hr : c.subRaises s.d.cbs <;> cases n <;>
     (have hsad := dst.symm; rw [hds] at hsad; rw [hsad] at cur sad
@@ -1673,7 +1694,7 @@ theorem dod_src_inv {α} (c : Cfg) [NoSrcFault c] (hc : c.oper = .doOnDispose) (
      simp [step, swallow, uNotify, hNext, hTerminal, hError, hCompleted, dNext, dTerminal, userCb, tryFinally,
       hc, dDispose, rDispose_ondispose c hc hnr, uDispose_eq, hus, hds, hr, hsad, cur, hl, ← sad]
      constructor <;> simp_all [uDisp, noEmitAfterAct_append, noEmitAfterAct])
-  · simp [step, swallow, uNotify, hus, hl]; exact ⟨cnt, sad, cur, dst, ust, trg, hdl, ret, ord⟩
+  · simp [step, swallow, uNotify, hus, hl]; exact ⟨cnt, sad, cur, dst, ust, trg, hdl, ret, ord, sad2, nsub⟩
 
 theorem dod_run_inv {α} (c : Cfg) [NoSrcFault c] (hc : c.oper = .doOnDispose) (hnr : ∀ k, c.actRaises k = false)
     (evs : List (Ev α)) (s : St α) (b : Bool)
@@ -1693,11 +1714,11 @@ theorem dod_subscribePhase {α} (c : Cfg) [NoSrcFault c] (hc : c.oper = .doOnDis
     (sp : SyncPhase α) :
     DodInv (subscribePhase c sp : St α) false ∨
     (Frozen (subscribePhase c sp : St α) ∧ actCount .dispose (subscribePhase c sp : St α).log = 0) := by
-  have h := using_srcSubscribe (α := α) c (Or.inr (Or.inr hc)) sp {} usingSync_init
+  have h := using_srcSubscribe (α := α) c (Or.inr (Or.inr (Or.inl hc))) sp {} usingSync_init
   simp only [subscribePhase, outerSubscribe, opSubscribe, hc]
   rcases ho : srcSubscribe c sp ({} : St α) with ⟨s1, _ | e⟩
   · rw [ho] at h
-    obtain ⟨cur, rd, ⟨-, -, cnt⟩, dst, trg, ust, ret, hdl, exn, nrm⟩ := h
+    obtain ⟨cur, rd, ⟨-, -, cnt⟩, dst, trg, ust, ret, hdl, exn, nrm, nsub, usd, exl⟩ := h
     simp only at cur rd cnt dst trg ust ret hdl nrm
     have ha := any_isAct_of_count_zero .dispose s1.log cnt
     have hb := noEmitAfterAct_of_count_zero .dispose s1.log cnt
@@ -1708,7 +1729,7 @@ theorem dod_subscribePhase {α} (c : Cfg) [NoSrcFault c] (hc : c.oper = .doOnDis
     · simp only [hsad, rDispose_ondispose c hc hnr, rd]
       constructor <;> simp_all [noEmitAfterAct_append, noEmitAfterAct]
   · rw [ho] at h
-    obtain ⟨cur, rd, ⟨-, -, cnt⟩, dst, trg, ust, ret, hdl, exn, nrm⟩ := h
+    obtain ⟨cur, rd, ⟨-, -, cnt⟩, dst, trg, ust, ret, hdl, exn, nrm, nsub, usd, exl⟩ := h
     obtain ⟨hst, hlive⟩ := exn e rfl
     simp only at cur rd cnt dst trg ust ret hdl hst hlive
     right
